@@ -75,6 +75,13 @@ Definition run_ether (c l : nat) (seed ht : N) (src dst : bytes) : string :=
            else "-" in
   out3 m s "-".
 
+(* EncodeEther with MAC arguments that are views into the destination buffer *)
+Definition run_ethalias (c l : nat) (seed ht : N) (so sl_ do_ dl : nat) : string :=
+  if Nat.ltb c (so + sl_) || Nat.ltb c (do_ + dl) then out3 "badargs" "-" "-" else
+  let b := mkbuf c l seed in
+  let r := encode_ether_aliased b ht so sl_ do_ dl in
+  out3 (with_rb (arr b) r rb_ether) "-" "-".
+
 (* Ether.SetPayload / Ether.AppendPayload after EncodeEther *)
 Definition known_ether_append_cap (c : nat) (ht : N) (plen pcap : nat) : bool :=
   Nat.leb (plen + 14) c && Nat.leb 60 c && Nat.ltb (c - hlen_of_type ht) pcap.
@@ -987,6 +994,12 @@ Definition dispatch (kind : string) (args : list string) : string :=
         end
     | _ => BADARGS
     end
+  else if String.eqb kind "ethalias" then
+    match parse_args "nnnnnnnn" args with
+    | Some [AN c; AN l; AN s; AN ht; AN so; AN sl_; AN do_; AN dl] =>
+        run_ethalias (nn c) (nn l) s ht (nn so) (nn sl_) (nn do_) (nn dl)
+    | _ => BADARGS
+    end
   else if String.eqb kind "census" then
     out3 (join "," (map fst encoder_census)) "-" "-"
   else if String.eqb kind "globals" then
@@ -1059,6 +1072,18 @@ Definition dispatch_line (l : string) : string :=
       if String.eqb k "conc" then
         match args with
         | k' :: args' => dispatch k' args'
+        | [] => BADARGS
+        end
+      else if String.eqb k "ro" then
+        (* kind ro: the case [k' args'] with every slice-typed argument handed over as a view with spare capacity
+           into one sentinel-filled array, the other arguments directly behind it.  Arguments are values in the
+           model (C03_encode_args_unchanged): the observation of the plain case, and the array is unchanged. *)
+        match args with
+        | k' :: args' =>
+            match Text.split (ascii_of_N 9) (dispatch k' args') with
+            | [m; s; key] => out3 (m ++ " args=clean") (if String.eqb s "-" then "-" else s ++ " args=clean") key
+            | _ => BADARGS
+            end
         | [] => BADARGS
         end
       else dispatch k args
